@@ -50,7 +50,7 @@ func gen(r *vu.Rng, i int) []string {
 }
 
 // genLongRepr: one literal whose strings are as long as maxStrLen allows and whose three varints are
-// over-long, so that the unparsed representation prefix approaches/exceeds 2*(maxStrLen+8).
+// over-long, so that the unparsed representation prefix approaches 2*(maxStrLen+10) (it exceeded the former bound 2*(maxStrLen+8)).
 func genLongRepr(r *vu.Rng) []string {
 	m := []int{1, 3, 20, 127}[r.Intn(4)]
 	ex1, ex2 := r.Range(0, 9), r.Range(0, 9)
@@ -106,8 +106,8 @@ func writeAll(w *decw, chunks [][]byte, maxStr int, o *vu.Out) (em []hpack.Heade
 		fed += len(c)
 		if e != nil {
 			paranoia = e == hpack.ErrStringLength && n == 0 && len(c) > 0
-			// the documented bound is 2*(maxStrLen+8) unparsed bytes; it must not fire below that
-			if paranoia && fed <= 2*(maxStr+8) {
+			// the bound is 2*(maxStrLen+10) unparsed bytes (the longest incomplete representation); it must not fire below that
+			if paranoia && fed <= 2*(maxStr+10) {
 				o.Fail("", fmt.Sprintf("saveBuf bound fired after only %d bytes of the block (maxStrLen=%d)", fed, maxStr))
 			}
 			return w.takeEmits(), e, paranoia
@@ -173,12 +173,10 @@ func (p *pair) step(t []string, o *vu.Out) string {
 		}
 		stA, stB := p.a.state(), p.b.state()
 		if !sameFields(emA, emB) || (errA == nil) != (errB == nil) || stA != stB {
-			sig := ""
 			if parA || parB {
-				sig = "c03-savebuf-bound" // excluded region of Proofs.C03.write_split_partial
-				o.Stat("finding:c03-savebuf-bound")
+				o.Stat("savebuf-bound-fired")
 			}
-			o.Fail(sig, fmt.Sprintf("block %x split at %s: emits %s / %v / %s; one Write: emits %s / %v / %s",
+			o.Fail("", fmt.Sprintf("block %x split at %s: emits %s / %v / %s; one Write: emits %s / %v / %s",
 				blk, t[2], showEmits(emA), errTag(errA), stA, showEmits(emB), errTag(errB), stB))
 		}
 		return errTag(errA) + " E " + showEmits(emA) + " " + stA
